@@ -193,10 +193,23 @@ def c12(tier, seed):
     scns.append(scenario("cat1_x_cat", [cat("A", 2, miss=[1]), cat("B", 3)], max_resp=3))
     scns = scns + [dict(s, name=s["name"] + ".ins") for s in _insertion_scns(tier, seed)
                    if len(s["dims"]) > 1]
+    # huge tables: simulated bags of a few single respondents and batches of 100,000, so
+    # that a (subtotal) row or column base lies within 1e-5 of the table base without being
+    # equal to it (family "c12h": definedness and sign of the residuals, see Derived.tla)
+    from runner import make_job
+    huge = _with_insertions(
+        [scenario("cat_x_cat.huge", [cat("A", 3), cat("B", 3)], weighted=False),
+         scenario("cat_x_cat.huge.w", [cat("A", 4, miss=[2]), cat("B", 2)], weights=(1, 3))], 0, seed)
+    huge += [scenario("mr_x_cat.huge", [mr("A", 2), cat("B", 2)], weighted=False),
+             scenario("cat_x_mr.huge", [cat("A", 2), mr("B", 2)], weighted=False)]
+    huge_jobs = [make_job(dict(s, batches=(1, 1, 100000)), "c12h", ("replay_basic", "replay"),
+                          mode="sim", seed=seed + 11, sim_num=250 if tier == "quick" else 3000,
+                          sim_depth=5, sim_max_resp=300004, prop_id="C12",
+                          timeout=300 if tier == "quick" else 1500) for s in huge]
     return dict(
         jobs=_value_jobs("C12", "c12", scns, tier, seed,
                          invariants=("EmitInv", "ThmZ2IsChiSq"), sim_extra=3,
-                         power=((1, 3, 7), 25, 5, 5 if tier == "quick" else 80)),
+                         power=((1, 3, 7), 25, 5, 5 if tier == "quick" else 80)) + huge_jobs,
         rule="as C04 (plain + insertion configurations) x TLC-enumerated bags, so that "
              "degenerate tables (single row/column, proportional rows, empty margins) occur; "
              "z by sign and square, p against the two-sided normal tail of the spec's Z2; "
